@@ -160,6 +160,9 @@ def generate(run_seed, tier='quick'):
     K = int(rng.randint(2, 4))
     D = int(rng.randint(2, 6))
     E = int(rng.randint(2, 5))
+    if thorough and rng.randint(3) == 0:
+        K = int(rng.randint(2, 6))
+        D = int(rng.randint(2, 9))
     if kind == 'gcacgmm':
         F = int(rng.randint(1, 4))
     elif kind == 'gmm':
